@@ -63,6 +63,23 @@ def translate_base_percent_point(path):
         '  map (fun p => bivariate_percent_point h brentq (fst p) (snd p)) X.\n')
 
 
+def translate_base_log_pdf(path):
+    mod, c, f = P.find_method(path, 'Bivariate', 'log_probability_density')
+    body = [s for s in f.body if not (isinstance(s, ast.Expr) and isinstance(s.value, ast.Constant))]
+    if len(body) != 1 or not isinstance(body[0], ast.Return) or [a.arg for a in f.args.args] != ['self', 'X']:
+        raise P.Unsupported('Bivariate.log_probability_density: unexpected shape')
+    sc = P.Scope('Bivariate', {}, 'X', {}, {}, {})
+
+    class X(P.ExprTr):
+        def call(self, n):
+            if ast.unparse(n) == 'self.probability_density(X)':
+                return '(pdf u v)'
+            return super().call(n)
+    e = X(sc).e(body[0].value)
+    return ('Definition bivariate_log_probability_density (pdf : R -> R -> R) (u v : R) : R :=\n'
+            f'  {e}.\n')
+
+
 class KTr(P.ExprTr):
     """Kernel expression translator: integer-literal exponents become powerRZ; super().percent_point -> base."""
 
@@ -91,6 +108,12 @@ def generate(ctx):
     except (P.Unsupported, Exception) as e:   # fail-closed
         status['bivariate_percent_point'] = f'{type(e).__name__}: {e}'
         out += f'(* bivariate_percent_point: UNSUPPORTED {e} *)\n'
+    try:
+        out += translate_base_log_pdf(os.path.join(BIV, 'base.py'))
+        status['bivariate_log_probability_density'] = None
+    except Exception as e:
+        status['bivariate_log_probability_density'] = f'{type(e).__name__}: {e}'
+        out += f'(* bivariate_log_probability_density: UNSUPPORTED {e} *)\n'
     orig = P.ExprTr
     P.ExprTr = KTr
     try:
